@@ -123,6 +123,16 @@ Proof.
   split; [vm_compute; reflexivity|]. split; eexists; vm_compute; reflexivity.
 Qed.
 
+(* the section lengths of that CAR, and at_boundary at the three cuts above *)
+Example ex_car_boundaries :
+  let n := N.of_nat (length (write_car ex_sha [[5; 6; 7]])) in
+  section_lengths ex_sha ex_blobs = [26; 40; 38] /\
+  at_boundary (section_lengths ex_sha ex_blobs) 0 n = true /\
+  at_boundary (section_lengths ex_sha ex_blobs) 0 (n - 1) = false /\
+  at_boundary (section_lengths ex_sha ex_blobs) 0 (n + 1) = false /\
+  at_boundary (section_lengths ex_sha ex_blobs) 0 0 = false.
+Proof. cbv zeta. split; [vm_compute; reflexivity|]. split; [vm_compute; reflexivity|]. split; [vm_compute; reflexivity|]. split; vm_compute; reflexivity. Qed.
+
 (* ---- C19: the secretbox premises are satisfiable (a toy box), and the wrapper then round-trips ---- *)
 Require Import Meta MetaProofs.
 Definition ex_box (k n p : str) : str := k ++ n ++ p.
@@ -164,3 +174,17 @@ Proof.
     + apply str_eqb_eq. exact H.
   - vm_compute. reflexivity.
 Qed.
+
+(* ---- constants read from the source (the src_ definitions of Generated.v) against the values the hand-written model hardwires:
+   where the model does not follow the source value, a change of the source breaks one of these ---- *)
+Require Import Generated Glob Meta.
+Example src_constants_consistent :
+  src_min_int53 = (- src_max_int53)%Z /\
+  src_varsig_prefix = 52 /\ forallb (fun h => match snd h with p :: _ => p =? src_varsig_prefix | [] => false end) varsig_headers = true /\
+  src_box_key_size = 32 /\
+  src_command_separator = [47] /\
+  src_varsig_header_key = lit "h" /\
+  (src_max_section < 2 ^ 63) /\
+  has_prefix src_ucan_tag_prefix src_dlg_tag = true /\ has_prefix src_ucan_tag_prefix src_inv_tag = true /\
+  str_eqb src_dlg_tag src_inv_tag = false.
+Proof. repeat split; vm_compute; reflexivity. Qed.
